@@ -94,6 +94,7 @@ func jobs(tier string) []driver.Job {
 	}
 	out = append(out, concJobs(d, th)...)
 	out = append(out, fileJobs(th)...)
+	out = append(out, fileConcJobs(th)...)
 	return out
 }
 
